@@ -467,6 +467,8 @@ def check(run):
         wit_report[w['id']]['minimal_fault_sets'].append(w['set'])
     for w in wits:
         for s in sorted(_SEEDS):
+            if w['needs'] and w['needs'] not in sinfo[s].get('traits', []):
+                continue                                  # the walker starts from another kind of valid file
             for chosen in concretise_witness(w, list(sftab.get(s, {}).values())):
                 desc = ['%s[%d].%s=%s' % (e['role'], e['idx'], e['field'], e['cls']) for e in sorted(chosen, key=lambda e: e['i'])]
                 wit_report[w['id']]['concretised_on'] += 1
